@@ -20,6 +20,7 @@ from ..extract import Extractor, Opaque, PathRaises, ReturnValue, _dotted
 from ..model import Program, walk_own
 from ..report import AnalysisError
 from . import common
+from ..model import canon as K
 
 CRIT = "hypnotoad/utils/critical.py"
 TOK = "hypnotoad/cases/tokamak.py"
@@ -144,11 +145,11 @@ def r1_r2(rep, mod, f):
         rep.ob("R2", "J[%d,%d] == d(%s)/d(%s)" % (idx[0], idx[1], ("Br", "Bz")[idx[0]], ("R", "Z")[idx[1]]), ok, f.site(loop),
                "found %s ; expected %s" % (v.show(120) if isinstance(v, Rat) else v, w.show(120)), key="newton/J%d%d" % idx)
     body = [T(mod, s) for s in loop.body]
-    ok = "d=dot(inv(J),[Br,Bz])" in body and "R1=R1-d[0]" in body and "Z1=Z1-d[1]" in body
+    ok = K("d=dot(inv(J),[Br,Bz])") in body and K("R1=R1-d[0]") in body and K("Z1=Z1-d[1]") in body
     rep.ob("R2", "the update is the Newton step x <- x - J^-1 B", ok, f.site(loop), "", key="newton/step")
-    conv = [s for s in loop.body if isinstance(s, ast.If) and T(mod, s.test) == "Br**2+Bz**2<atol"]
+    conv = [s for s in loop.body if isinstance(s, ast.If) and T(mod, s.test) == K("Br**2+Bz**2<atol")]
     rep.ob("R2", "convergence is tested on Br^2+Bz^2 < atol before classification", len(conv) == 1, f.site(loop), "", key="newton/converged")
-    disc = [s for s in loop.body if isinstance(s, ast.If) and "radius_sq" in T(mod, s.test) and "count>maxits" in T(mod, s.test) and any(isinstance(x, ast.Break) for x in s.body)]
+    disc = [s for s in loop.body if isinstance(s, ast.If) and "radius_sq" in T(mod, s.test) and K("count>maxits") in T(mod, s.test) and any(isinstance(x, ast.Break) for x in s.body)]
     rep.ob("R2", "iterations are abandoned when the point leaves the search radius or maxits is exceeded", len(disc) == 1, f.site(loop), "", key="newton/discard")
     # R1: classification block inside the convergence branch
     if not conv:
@@ -171,14 +172,14 @@ def r1_r2(rep, mod, f):
     rep.ob("R1", "stencil spacings are the grid spacings dR = R[1,0]-R[0,0], dZ = Z[0,1]-Z[0,0]", ok, f.site(cb), str(ex2.spacing_defs), key="stencil/spacings")
     ok = isinstance(D, Rat) and all(isinstance(x, Rat) for x in (d2r, d2z, d2rz)) and (D - (d2r * d2z - d2rz * d2rz)).is_zero()
     rep.ob("R1", "D == f_RR*f_ZZ - f_RZ^2", ok, f.site(cb), "", key="stencil/discriminant")
-    cls = [s for s in cb.body if isinstance(s, ast.If) and T(mod, s.test) == "D<0.0"]
-    ok = len(cls) == 1 and T(mod, cls[0].body[-1]) == "xpoint.append((R1,Z1,f(R1,Z1)[0][0]))" and T(mod, cls[0].orelse[-1]) == "opoint.append((R1,Z1,f(R1,Z1)[0][0]))"
+    cls = [s for s in cb.body if isinstance(s, ast.If) and T(mod, s.test) == K("D<0.0")]
+    ok = len(cls) == 1 and T(mod, cls[0].body[-1]) == K("xpoint.append((R1,Z1,f(R1,Z1)[0][0]))") and T(mod, cls[0].orelse[-1]) == K("opoint.append((R1,Z1,f(R1,Z1)[0][0]))")
     rep.ob("R1", "D < 0 => X-point, otherwise O-point; the refined position and psi there are recorded as (R, Z, psi)", ok, f.site(cb), "", key="classify")
     # stencil offsets stay inside the array: loops start 2 cells from the edges
-    outer = [n for n in ast.walk(f.node) if isinstance(n, ast.For) and T(mod, n.iter) in ("range(2,nx-2)", "range(2,ny-2)")]
+    outer = [n for n in ast.walk(f.node) if isinstance(n, ast.For) and T(mod, n.iter) in (K("range(2,nx-2)"), K("range(2,ny-2)"))]
     rep.ob("R1", "candidate search leaves a 2-cell margin for the +-2 stencils", len(outer) == 2, f.site(), "", key="stencil/margin")
     # local-minimum test of Bp2 over the 8 neighbours
-    mins = [n for n in ast.walk(f.node) if isinstance(n, ast.If) and T(mod, n.test).count("Bp2[i,j]<Bp2[") == 8]
+    mins = [n for n in ast.walk(f.node) if isinstance(n, ast.If) and T(mod, n.test).count(K("Bp2[i,j]<Bp2[")) == 8]
     nb = set()
     if mins:
         for cmp_ in ast.walk(mins[0].test):
@@ -188,7 +189,7 @@ def r1_r2(rep, mod, f):
     want_nb = {s.replace("+-", "-").replace("+0", "") for s in want_nb} - {"Bp2[i,j]"}
     rep.ob("R1", "candidates are strict local minima of Bp^2 over all 8 neighbours", nb == want_nb, f.site(mins[0]) if mins else f.site(), str(sorted(nb)), key="candidates")
     bp2 = [s for s in f.node.body if isinstance(s, ast.Assign) and T(mod, s.targets[0]) == "Bp2"]
-    ok = bool(bp2) and T(mod, bp2[0].value) == "(f(R,Z,dx=1,grid=False)**2+f(R,Z,dy=1,grid=False)**2)/R**2"
+    ok = bool(bp2) and T(mod, bp2[0].value) == K("(f(R,Z,dx=1,grid=False)**2+f(R,Z,dy=1,grid=False)**2)/R**2")
     rep.ob("R1", "Bp^2 == |grad psi|^2 / R^2 on the input grid", ok, f.site(), "", key="bp2")
 
 
@@ -216,26 +217,29 @@ def r3(rep, mod, f):
     if isinstance(key, Rat):
         d2 = (ctx.sym("x[0]") - ctx.sym("Rmid")) ** 2 + (ctx.sym("x[1]") - ctx.sym("Zmid")) ** 2
         ok = (key - d2).is_zero() or (key - ctx.call("sqrt", d2)).is_zero()
-    ok = ok and "Rmid=0.5*(R[-1,0]+R[0,0])" in src and "Zmid=0.5*(Z[0,-1]+Z[0,0])" in src
+    ok = ok and K("Rmid=0.5*(R[-1,0]+R[0,0])") in src and K("Zmid=0.5*(Z[0,-1]+Z[0,0])") in src
     rep.ob("R3", "O-points are sorted by (squared) distance to the domain midpoint (primary first)", ok, f.site(node) if node else f.site(), key.show() if isinstance(key, Rat) else str(key), key="order/opoints")
     ctx, key, node = _sort_key(mod, f, "xpoint")
     ok = False
     if isinstance(key, Rat):
         d = ctx.sym("x[2]") - ctx.sym("psi_axis")
         ok = (key - d * d).is_zero() or (key - ctx.call("abs", d)).is_zero() or (key - ctx.call("sqrt", d * d)).is_zero()
-    ok = ok and "psi_axis=opoint[0][2]" in src
+    ok = ok and K("psi_axis=opoint[0][2]") in src
     rep.ob("R3", "X-points are sorted by a monotone function of |psi - psi_axis| of the primary O-point", ok, f.site(node) if node else f.site(), key.show() if isinstance(key, Rat) else str(key), key="order/xpoints")
     # order of operations: sort of O-points precedes use of opoint[0]
     body = [T(mod, s) for s in f.node.body]
-    i_sort = next((k for k, s in enumerate(body) if s.startswith("opoint.sort(")), None)
-    i_axis = next((k for k, s in enumerate(body) if s == "psi_axis=opoint[0][2]"), None)
-    i_xsort = next((k for k, s in enumerate(body) if s.startswith("xpoint.sort(")), None)
+    i_sort = next((k for k, s in enumerate(body) if s.startswith(K("opoint.sort("))), None)
+    i_axis = next((k for k, s in enumerate(body) if s == K("psi_axis=opoint[0][2]")), None)
+    i_xsort = next((k for k, s in enumerate(body) if s.startswith(K("xpoint.sort("))), None)
     rep.ob("R3", "the primary O-point is chosen before it is used to order the X-points", None not in (i_sort, i_axis, i_xsort) and i_sort < i_axis < i_xsort, f.site(), "", key="order/sequence")
     dup = mod.funcs.get("find_critical.remove_dup")
-    ok = dup is not None and "if(p[0]-p2[0])**2+(p[1]-p2[1])**2<1e-5:" in T(mod, dup.node) and "xpoint=remove_dup(xpoint)" in src and "opoint=remove_dup(opoint)" in src
+    thr = [n for n in ast.walk(dup.node) if isinstance(n, ast.If) and isinstance(n.test, ast.Compare) and len(n.test.ops) == 1 and isinstance(n.test.ops[0], (ast.Lt, ast.LtE))
+           and T(mod, n.test.left) == K("(p[0]-p2[0])**2+(p[1]-p2[1])**2") and isinstance(n.test.comparators[0], ast.Constant)
+           and isinstance(n.test.comparators[0].value, float) and 0 < n.test.comparators[0].value < 1e-2] if dup is not None else []
+    ok = dup is not None and len(thr) == 1 and K("xpoint=remove_dup(xpoint)") in src and K("opoint=remove_dup(opoint)") in src
     rep.ob("R3", "duplicates (closer than the threshold in R-Z) are removed from both lists, keeping the first", ok, f.site(), "", key="dedup")
     rets = [n for n in walk_own(f.node) if isinstance(n, ast.Return)]
-    ok = all(r.value is not None and T(mod, r.value) == "opoint,xpoint" for r in rets) and len(rets) >= 1
+    ok = all(r.value is not None and T(mod, r.value) == K("opoint,xpoint") for r in rets) and len(rets) >= 1
     rep.ob("R3", "the result is (O-points, X-points) in that order", ok, f.site(), "", key="return")
 
 
@@ -245,14 +249,15 @@ def r4(prog, rep):
     if f is None:
         raise AnalysisError("makeRegions not found")
     src = T(mod, f.node)
-    ok = "if(self._psi_to_psinorm(psi)<self._psi_to_psinorm(self.psi_sol))andinside_wall(xpoint)" in src and "forpsi,xpointinzip(self.psi_sep,self.x_points)" in src and "self.psi_sep,self.x_points=zip(" in src
+    comps = [c for c in ast.walk(f.node) if isinstance(c, ast.comprehension) and T(mod, c.iter) == K("zip(self.psi_sep, self.x_points)") and T(mod, c.target) == K("psi, xpoint")]
+    ok = len(comps) == 1 and len(comps[0].ifs) == 1 and T(mod, comps[0].ifs[0]) == K("self._psi_to_psinorm(psi) < self._psi_to_psinorm(self.psi_sol) and inside_wall(xpoint)") and K("self.psi_sep,self.x_points=zip(") in src
     rep.ob("R4", "X-points are kept iff psinorm < psinorm(psi_sol) and inside the wall; psi_sep and x_points are filtered together", ok, f.site(), "", key="select/filter")
-    ok = "ifnot(0<len(self.x_points)<=2):raiseValueError(" in src
+    ok = any(isinstance(n, ast.If) and T(mod, n.test) == K("not 0 < len(self.x_points) <= 2") and any(isinstance(x, ast.Raise) for x in n.body) for n in ast.walk(f.node))
     rep.ob("R4", "zero or more than two remaining X-points is an error", ok, f.site(), "", key="select/count")
-    ok = "iflen(self.x_points)==1:" in src and "self.describeSingleNull()" in src and "self.describeDoubleNull()" in src
+    ok = K("iflen(self.x_points)==1:") in src and K("self.describeSingleNull()") in src and K("self.describeDoubleNull()") in src
     rep.ob("R4", "one X-point => single null, two => double null", ok, f.site(), "", key="select/dispatch")
     g = mod.funcs.get("TokamakEquilibrium.makeRegions.inside_wall")
-    ok = g is not None and "returnnotpolygons.intersect([Rc,point.R],[Zc,point.Z],Rws,Zws)" in T(mod, g.node)
+    ok = g is not None and K("returnnotpolygons.intersect([Rc,point.R],[Zc,point.Z],Rws,Zws)") in T(mod, g.node)
     rep.ob("R4", "inside-wall test: the segment from the wall's bounding-box centre to the point does not cross the wall", ok, f.site(), "", key="select/inside-wall")
     # psinorm map
     h = mod.funcs.get("TokamakEquilibrium._psi_to_psinorm")
@@ -266,11 +271,11 @@ def r4(prog, rep):
     rep.ob("R4", "psinorm is 0 at the axis and 1 at the primary separatrix (so the test is sign-independent)", ok, h.site(), v.show(), key="select/psinorm")
     fl = mod.funcs.get("TokamakEquilibrium.findLegs")
     src = T(mod, fl.node)
-    ok = "ifleg_lines[0][-1].R>leg_lines[1][-1].R:leg_lines=leg_lines[::-1]" in src and 'return{"inner":leg_lines[0],"outer":leg_lines[1]}' in src
+    ok = K("ifleg_lines[0][-1].R>leg_lines[1][-1].R:leg_lines=leg_lines[::-1]") in src and K('return{"inner":leg_lines[0],"outer":leg_lines[1]}') in src
     rep.ob("R4", "legs are labelled inner/outer by the major radius of their strike points (last point of each traced leg)", ok, fl.site(), "", key="legs/inner-outer")
-    ok = "line=[xpoint]" in src and "line.append(intersect)" in src and "iflen(inds)!=2:raiseValueError(" in src
+    ok = K("line=[xpoint]") in src and K("line.append(intersect)") in src and K("iflen(inds)!=2:raiseValueError(") in src
     rep.ob("R4", "each leg runs from the X-point to its wall intersection; exactly two legs per X-point", ok, fl.site(), "", key="legs/shape")
     init = mod.funcs.get("TokamakEquilibrium.__init__")
     src = T(mod, init.node)
-    ok = "self.x_points=[Point2D(r,z)forr,z,psiinxpoints]" in src and "self.psi_sep=[psiforr,z,psiinxpoints]" in src
+    ok = K("self.x_points=[Point2D(r,z)forr,z,psiinxpoints]") in src and K("self.psi_sep=[psiforr,z,psiinxpoints]") in src
     rep.ob("R4", "x_points and psi_sep are parallel lists in find_critical's order", ok, init.site(), "", key="select/parallel-lists")
